@@ -19,7 +19,7 @@ func init() {
 		Title: "A WAF follows its own configuration only; pattern caching is invisible",
 		Explanation: "Decides the cache-key discipline of the process-wide memoizer, not behavioural equality with an uncached build: R1 every memoize call site builds its key from a constant role prefix; call sites sharing a prefix cache the same dynamic type built by the same constructor, and distinct prefixes are pairwise prefix-free (no key of one role can equal a key of another); " +
 			"R2 completeness and losslessness: every variable captured by the cached closure is derived from values the key is computed from, and reaches the key through concatenation/formatting/hashing only (not through a normalising function that maps different inputs to one key) (dependency closure over SSA operands; results of impure calls such as file reads count as sources of their own); " +
-			"R3 WAF.Close releases the WAF's entries exactly once and Release deletes an entry only when its owner set is empty, under the entry lock; R5 cached objects are never mutated in place (no call of (*Regexp).Longest, the only mutating method of the cached library types); R4 the three build variants of the memoize package export the same API (each configuration type-checks, thorough tier).",
+			"R3 WAF.Close releases the WAF's entries exactly once and Release deletes an entry only when its owner set is empty, under the entry lock; R6 inside the memoize package the process-wide map and the singleflight group are accessed under the caller's key itself; R7 operator factories call methods on no package-level object other than immutable compiled patterns; R5 cached objects are never mutated in place (no call of (*Regexp).Longest, the only mutating method of the cached library types); R4 the three build variants of the memoize package export the same API (each configuration type-checks, thorough tier).",
 		NotDecided: []string{
 			"behavioural equality with the cache compiled out",
 			"that two different inputs never produce the same key suffix (separator ambiguity inside the suffix is only checked for the shapes listed in R2)",
@@ -280,6 +280,106 @@ func runC13(c *an.Ctx) {
 		})
 	}
 	c.OkTrivial("R5", "no in-place mutation of cached library objects", token.NoPos, fmt.Sprintf("%d calls of (*Regexp).Longest in the module", nLongest))
+
+	// ---- R6 the cache itself is keyed by the caller's key, unchanged: every Load/Store/LoadOrStore/Delete on the
+	// process-wide map and every singleflight call inside the memoize package receives the `key` parameter itself
+	// (a shortened, hashed or normalised key makes different inputs collide whatever the call sites do)
+	nKeyed := 0
+	for _, fn := range c.P.ModFuncs {
+		if relPkg(fn) != "internal/memoize" {
+			continue
+		}
+		for _, f := range an.WithClosures(fn) {
+			an.Instrs(f, func(in ssa.Instruction) {
+				cc := an.CallOf(in)
+				if cc == nil || cc.StaticCallee() == nil || cc.StaticCallee().Signature.Recv() == nil || len(cc.Args) < 2 {
+					return
+				}
+				rt := cc.StaticCallee().Signature.Recv().Type().String()
+				isMap := strings.HasSuffix(rt, "sync.Map") && (cc.StaticCallee().Name() == "Load" || cc.StaticCallee().Name() == "Store" || cc.StaticCallee().Name() == "LoadOrStore" || cc.StaticCallee().Name() == "LoadAndDelete")
+				isSF := strings.HasSuffix(rt, "singleflight.Group") && cc.StaticCallee().Name() == "Do"
+				if !isMap && !isSF {
+					return
+				}
+				// only inside functions that have a string parameter/free variable named like a key (Do and its closure)
+				k := cc.Args[1]
+				if mi, ok := k.(*ssa.MakeInterface); ok {
+					k = mi.X
+				}
+				if !isStringType(k.Type()) {
+					return
+				}
+				nKeyed++
+				_, isParam := k.(*ssa.Parameter)
+				_, isFree := k.(*ssa.FreeVar)
+				if u, ok := k.(*ssa.UnOp); ok {
+					_, isFree = u.X.(*ssa.FreeVar)
+					// a parameter captured by a closure lives in a cell: new string (key); *cell = key
+					if a, ok := u.X.(*ssa.Alloc); ok {
+						nSt, fromParam := 0, false
+						for _, r := range *a.Referrers() {
+							if st, ok := r.(*ssa.Store); ok && st.Addr == ssa.Value(a) {
+								nSt++
+								_, fromParam = st.Val.(*ssa.Parameter)
+							}
+						}
+						isParam = nSt == 1 && fromParam
+					}
+				}
+				c.Check(isParam || isFree, "R6", fmt.Sprintf("memoize: %s.%s is keyed by the caller's key itself", typeBaseName(rt), cc.StaticCallee().Name()), in.Pos(), tempName.ReplaceAllString(an.Expr(k), ""),
+					"the process-wide cache is accessed under "+tempName.ReplaceAllString(an.Expr(k), "")+", a value computed from the caller's key rather than the key itself: distinct keys that compute to the same value share one entry, so a WAF can be handed another WAF's compiled artefact")
+			})
+		}
+	}
+	if c.P.Cfg.Name != "tinygo" {
+		c.MinCount("R6", "keyed accesses inside the memoize package", nKeyed, 3)
+	}
+
+	// ---- R7 operators keep no process-wide state of their own: what they cache goes through the memoizer (keyed,
+	// owned, released).  A package-level object with internal state used while building an operator (a shared
+	// schema compiler, a registry) is a second, unkeyed cache that no WAF owns.
+	nGlob := 0
+	for _, fn := range c.P.ModFuncs {
+		if relPkg(fn) != "internal/operators" || fn.Parent() != nil && false {
+			continue
+		}
+		outer := an.OuterFn(fn)
+		if !(strings.HasPrefix(outer.Name(), "new") || strings.HasPrefix(outer.Name(), "New")) {
+			continue
+		}
+		an.Instrs(fn, func(in ssa.Instruction) {
+			cc := an.CallOf(in)
+			if cc == nil || len(cc.Args) == 0 && !cc.IsInvoke() {
+				return
+			}
+			recv := cc.Value
+			if !cc.IsInvoke() {
+				if cc.StaticCallee() == nil || cc.StaticCallee().Signature.Recv() == nil {
+					return
+				}
+				recv = cc.Args[0]
+			}
+			u, ok := recv.(*ssa.UnOp)
+			if !ok {
+				return
+			}
+			g, ok := u.X.(*ssa.Global)
+			if !ok || g.Pkg == nil || !strings.HasPrefix(g.Pkg.Pkg.Path(), an.ModPath) {
+				return
+			}
+			nGlob++
+			t := g.Type().String()
+			name := g.Name()
+			okT := strings.Contains(t, "regexp.Regexp") // compiled patterns are immutable (R5)
+			if why, ok := c13GlobalAllow[name]; ok {
+				c.Note("R7", "package-level "+name+" used by "+outer.Name(), in.Pos(), "not decided mechanically; manual argument: "+why)
+				return
+			}
+			c.Check(okT, "R7", "package-level "+name+" used by "+outer.Name()+" is an immutable pattern", in.Pos(), t,
+				"the operator factory "+outer.Name()+" calls a method on the package-level object "+name+" ("+t+"): state that object accumulates (registered schemas, caches) is shared by every WAF in the process, keyed by nothing the memoizer knows and released by no Close")
+		})
+	}
+	c.OkTrivial("R7", "method calls on package-level objects in operator factories", token.NoPos, fmt.Sprintf("%d calls", nGlob))
 
 	// ---- R3 release
 	c13Release(c)
@@ -645,3 +745,6 @@ var c13JoinAllow = map[string]string{
 	"internal/operators.newPMFromFile":    "the elements are the lines of the file (split at newlines) and the separator is a newline",
 	"internal/operators.newPMFromDataset": "data-set entries are the lines of a SecDataset block (split at newlines) and the separator is a newline",
 }
+
+// c13GlobalAllow: package-level objects that operator factories may call methods on, with the reason.
+var c13GlobalAllow = map[string]string{}
